@@ -81,6 +81,7 @@ package ecs
 //@   ensures  shrunk: result ==> t.cap == max(capPow2(t.len), minCapacity) && t.cap < old(t.cap)
 //@   ensures  bounds: t.len == old(t.len) && t.len <= t.cap
 //@   ensures  rows: forall r uint32 :: r < t.len ==> rowEnt(t)[r] == old(rowEnt(t)[r])
+//@   modifies t.cap, rowEnt(t)[*], t.entities.pointer, t.entities.data, t.columns[*]
 
 //@ func (*table).Extend
 //@   serves C01 C15
